@@ -2,7 +2,9 @@
 
 Monitors, on IR models generated through the public API (vfpy/gen_ir.py) and optionally
 edited by a random edit history (vfpy/gen_ops.py):
-  * structural isomorphism (vfpy/iso_ir.py) of the model and from_proto(to_proto(model));
+  * structural isomorphism (vfpy/iso_ir.py) of the model and from_proto(to_proto(model)), including the quantization
+    annotation of every value (vfpy/c03_roles.py: per-value payload kept outside the value's own ValueInfoProto, on values
+    holding several roles - input / initializer / node output / graph output - at once);
   * to_proto(model) twice gives byte-identical deterministic serialisations;
   * an all-observables snapshot of the model before and after to_proto: nothing may change except
     an initializer tensor's own name becoming the name of its value; the tensors themselves (class, dtype,
@@ -18,7 +20,7 @@ import re
 
 import onnx_ir as ir
 
-from vfpy import c03_reload, c03_scopes, gen_ir, iso_ir, snapshot
+from vfpy import c03_reload, c03_roles, c03_scopes, gen_ir, iso_ir, snapshot
 from vfpy.gen_ops import Gen
 from vfpy.world import World
 
@@ -38,7 +40,14 @@ RULE = ("a case is one generated structural IR model (nested subgraphs with capt
         "mappings of model/graphs/functions/nodes/values/tensors cleared, popped key by key, deleted, re-valued, "
         "extended, replaced; doc strings emptied or changed; node/graph/tensor/value names changed; model header "
         "fields reset; value types/shapes dropped or replaced; initializer payloads replaced; 20% of them also get "
-        "1-10 random public edits) before being judged; "
+        "1-10 random public edits) before being judged; in every third case (fixed stratum) and 15-20% of the others "
+        "values are given SEVERAL ROLES in their graph (vfpy/c03_roles.multiply_roles: initializer also graph input, "
+        "graph input given a default payload and registered as initializer, inputs / initializers / node outputs also "
+        "graph outputs; in the main graph, nested graphs and - without initializers - function bodies; 15% of the "
+        "loaded models get further roles after loading) and named values of every GraphProto-serialised graph carry "
+        "quantization annotations (meta['quant_parameter_tensor_names'], multi-role values with p=0.9), which half of "
+        "the loaded models then edit (removed, emptied, cleared in place, entries popped / re-valued / added, replaced, "
+        "new ones); "
         "models that are not well scoped or whose references cannot be resolved by name are skipped and counted; non-trivial = >=4 nodes "
         "and >=3 generator features among {subgraph, function, captured value, non-tensor type, metadata, lazy/proto/"
         "string/low-bit tensor, unsorted order, edit history}; distinct = hash of the serialized proto")
@@ -47,7 +56,11 @@ ASSUMPTIONS = [
     "(decided by vfpy/c03_scopes.lexical_problems, not by serde or NameFixPass); names may repeat across scopes",
     "opset imports: the set of (domain, version) pairs is judged with 'ai.onnx' and '' naming one domain; a mere "
     "respelling of the default domain or a reordering is counted as report_only",
-    "documented non-serialised state is not compared: Node.version, meta stores, const_value of non-initializers, opset imports of nested graphs",
+    "documented non-serialised state is not compared: Node.version, meta stores other than the documented serialised key "
+    "Value.meta['quant_parameter_tensor_names'] (compared for every value of a graph that is serialised as GraphProto; absent, "
+    "None and empty read alike; a FunctionProto has no annotation field, so values owned by a function body itself are "
+    "report_only), const_value of non-initializers, opset imports of nested graphs",
+    "a tensor name annotated twice in one GraphProto (e.g. a value listed twice among the graph outputs) is counted as report_only",
     "a value with a shape but no type is outside the judged domain (the serializer documents that it skips the shape); counted as report_only",
     "initializers without const_value are skipped by the serializer as documented; such models are not judged",
     "FLOAT attributes are compared as float32",
@@ -69,7 +82,16 @@ def plan(tier: str) -> dict:
                    "judged_with_both_default_domain_spellings": 300 if quick else 15000,
                    "loaded_then_edited_models_judged": 800 if quick else 40000,
                    "judged_with_metadata_emptied_vs_backing": 60 if quick else 3000,
-                   "tensors_compared_across_to_proto": 5000 if quick else 250000},
+                   "tensors_compared_across_to_proto": 5000 if quick else 250000,
+                   "quant_annotations_compared": 4000 if quick else 200000,
+                   "judged_with_quant_annotation_on_multi_role_value": 600 if quick else 30000,
+                   "quant_annotated:input+initializer": 200 if quick else 10000,
+                   "quant_annotated:input+output": 300 if quick else 15000,
+                   "quant_annotated:initializer+output": 300 if quick else 15000,
+                   "quant_annotated:input+initializer+output": 500 if quick else 25000,
+                   "quant_annotated:node_output+output": 800 if quick else 40000,
+                   "quant_annotated:in_nested_graph": 1000 if quick else 50000,
+                   "judged_with_quant_annotations_edited_after_load": 100 if quick else 5000},
         "min_nontrivial": 1000,
     }
 
@@ -91,7 +113,11 @@ def roundtrip_signature(diffs: list[str]) -> str:
     was seen is an instance detail: name it first and collapse the depth."""
     conn = next((d for d in diffs if ": connectivity differs: " in d), None)
     if conn is None:
-        return "roundtrip|" + norm_path(diffs[0])
+        sig = norm_path(diffs[0])
+        if ".quantization_annotation|" in sig:
+            # a side table of the GraphProto: the nesting depth of the graph is an instance detail
+            sig = re.sub(r"(\.node\.attr\.g)+", ".node.attr.g*", sig)
+        return "roundtrip|" + sig
     path = re.sub(r"(\.node\.attr\.g)+", ".node.attr.g*", norm_path(conn).split("|")[0])
     m = _PAIRING.search(conn)
     names = ({x.rstrip(",") for x in m.groups()} - {"None"}) if m else set()
@@ -150,6 +176,7 @@ def build(ctx, case):
         edited = True
         feats.add("edit_history")
     # the dimensions below draw from their own stream, so the base models are those of earlier versions
+    info: dict[str, int] = {}
     xr = ctx.rng(case, "scopes")
     if xr.random() < 0.3 and c03_scopes.add_deep_captures(model, xr):
         feats.add("deep_capture_graph")
@@ -167,10 +194,20 @@ def build(ctx, case):
     if (model.ir_version or 0) >= 11 and not edited and rng.random() < 0.7:
         if gen_ir.annotate_devices(model, rng):
             feats.add("device_annotations")
+    # values holding several roles at once and the per-value payload the format keeps outside the value's own
+    # ValueInfoProto (own stream; a fixed stratum of the case plan so that the floors do not depend on chance)
+    qr = ctx.rng(case, "roles")
+    stratum = case % 3 == 0
+    if stratum or qr.random() < 0.15:
+        for k, n in c03_roles.multiply_roles(model, qr, p=0.7 if stratum else 0.4).items():
+            info["role_added:" + k] = n
+            feats.add("roles_multiplied")
+    if stratum or qr.random() < 0.2:
+        if c03_roles.annotate_quant(model, qr, p=qr.choice([0.15, 0.4, 0.8])):
+            feats.add("quant_annotations")
     # loaded-then-edited models (own stream): tensors of every class carry metadata; the model is taken
     # through to_proto/from_proto (so its tensors are proto-backed and every mapping / doc string / name
     # was initialised from a proto field) and is then edited through the public API
-    info: dict[str, int] = {}
     rr = ctx.rng(case, "reload")
     if rr.random() < 0.5 and c03_reload.decorate_tensors(model, rr):
         feats.add("tensor_metadata")
@@ -184,8 +221,16 @@ def build(ctx, case):
             if rr.random() < 0.9:
                 for k, n in c03_reload.scrub(model, rr).items():
                     info["post_load_edit:" + k] = n
-                if info:
+                if any(k.startswith("post_load_edit:") for k in info):
                     feats.add("edited_after_load")
+            if "quant_annotations" in feats and qr.random() < 0.5:
+                for k, n in c03_roles.edit_quant(model, qr).items():
+                    info["post_load_quant_annotation:" + k] = n
+                    feats.add("quant_annotations_edited_after_load")
+            if qr.random() < 0.15:
+                for k, n in c03_roles.multiply_roles(model, qr, p=0.5).items():
+                    info["post_load_role_added:" + k] = n
+                    feats.add("roles_multiplied_after_load")
             if rr.random() < 0.2:
                 w = World()
                 w.adopt_model(model)
@@ -264,11 +309,22 @@ def judge(ctx, model, feats, edited, case, info=None):
         ctx.violation(f"deserialize-own-output-raised|{type(e).__name__}",
                       f"from_proto(to_proto(model)) raised {e!r}"[:1500], {"case": case, "seed": ctx.seed})
         return
-    iso = c03_scopes.Iso()
+    iso = c03_roles.Iso()
     diffs = iso.model(model, back)
     for what in iso.report_only:
         ctx.count("report_only_" + what)
     ctx.count("roundtrips_judged")
+    ctx.count("quant_annotations_compared", iso.annotations_compared)
+    by_roles = c03_roles.annotated_by_roles(model)
+    for k, n in by_roles.items():
+        ctx.count("quant_annotated:" + k, n)
+    if any("+" in k for k in by_roles):
+        ctx.count("judged_with_quant_annotation_on_multi_role_value")
+    if "quant_annotations_edited_after_load" in feats:
+        ctx.count("judged_with_quant_annotations_edited_after_load")
+    dup = c03_roles.duplicate_annotations(p1)
+    if dup:
+        ctx.count("report_only_tensor_annotated_twice_in_one_graph_proto", dup)
     if "cross_scope_names" in feats:
         ctx.count("judged_with_cross_scope_names")
         for rel, k in c03_scopes.cross_scope_collisions(model).items():
@@ -280,12 +336,12 @@ def judge(ctx, model, feats, edited, case, info=None):
         ctx.count("judged_with_both_default_domain_spellings")
     if edited:
         ctx.count("edited_models_judged")
+    for k, n in (info or {}).items():
+        ctx.count(k, n)
     if "reloaded" in feats:
         ctx.count("loaded_models_judged")
         if "edited_after_load" in feats:
             ctx.count("loaded_then_edited_models_judged")
-        for k, n in (info or {}).items():
-            ctx.count(k, n)
         for k, n in c03_reload.stale_backing(model).items():
             ctx.count(k, n)
             if n and k != "proto_backed_tensors":
